@@ -16,7 +16,7 @@ from ..ref import stv as R
 from . import common
 
 ID = "C03"
-RUNS = {"quick": 30000, "thorough": 1500000}
+RUNS = {"quick": 20000, "thorough": 1500000}
 TIME = {"quick": 75, "thorough": 1500}
 RULE_TEXT = (
     "case kinds: T = seeded (winner, ballot list with duplicates/exhausted/not-winner-led/id+voter-set ballots, threshold in [1, tally]) passed to "
